@@ -44,6 +44,17 @@ std::vector<Entry> entries() {
   e.push_back({"A+=Evolve(op,t)", [](SU_vector& A, SU_vector& B, Aux& x) { A += B.Evolve(*x.Hb, 0.3); }});
   e.push_back({"A-=Evolve(buffer)", [](SU_vector& A, SU_vector& B, Aux& x) { A -= B.Evolve(x.bufb); }});
   e.push_back({"A+=ElementwiseProduct", [](SU_vector& A, SU_vector& B, Aux&) { A += ElementwiseProduct(B, B); }});
+  // the same under a (true) optimisation guarantee that does NOT assert equal sizes: the size check must survive it
+  {
+    using squids::detail::guarantee; using squids::detail::NoAlias;
+    e.push_back({"A+=guarantee<NoAlias>(sum)", [](SU_vector& A, SU_vector& B, Aux&) { A += guarantee<NoAlias>(B + B); }});
+    e.push_back({"A-=guarantee<NoAlias>(difference)", [](SU_vector& A, SU_vector& B, Aux&) { A -= guarantee<NoAlias>(B - B); }});
+    e.push_back({"A+=guarantee<NoAlias>(scalar-multiple)", [](SU_vector& A, SU_vector& B, Aux&) { A += guarantee<NoAlias>(B * 2.0); }});
+    e.push_back({"A-=guarantee<NoAlias>(iCommutator)", [](SU_vector& A, SU_vector& B, Aux&) { A -= guarantee<NoAlias>(iCommutator(B, B)); }});
+    e.push_back({"A+=guarantee<NoAlias>(ACommutator)", [](SU_vector& A, SU_vector& B, Aux&) { A += guarantee<NoAlias>(ACommutator(B, B)); }});
+    e.push_back({"A-=guarantee<NoAlias>(Evolve(buffer))", [](SU_vector& A, SU_vector& B, Aux& x) { A -= guarantee<NoAlias>(B.Evolve(x.bufb)); }});
+    e.push_back({"A+=guarantee<NoAlias>(ElementwiseProduct)", [](SU_vector& A, SU_vector& B, Aux&) { A += guarantee<NoAlias>(ElementwiseProduct(B, B)); }});
+  }
   // expressions whose operands are themselves expressions
   e.push_back({"(A+A)+B", [](SU_vector& A, SU_vector& B, Aux&) { SU_vector r = (A + A) + B; (void)r; }});
   e.push_back({"(A-A)-B", [](SU_vector& A, SU_vector& B, Aux&) { SU_vector r = (A - A) - B; (void)r; }});
